@@ -317,6 +317,8 @@ let s_keygen g obs =
 
 let register_all register =
   register "keygen" s_keygen;
+  register "registry" Regsuite.s_registry;
+  register "codec" Regsuite.s_codec;
   register "router" s_router;
   register "routerconc" s_routerconc;
   List.iter (fun n -> register ("gw" ^ n) Gwsuite.s_gw) ["C11"; "C15"; "C16"; "C17"];
